@@ -1,13 +1,16 @@
 #!/bin/bash
 # tools/seed_run.sh <seeded-dir> <property-id>...
-# Applies the seeded change to /repo, runs the given checks (quick tier), and undoes it.
+# Runs the given checks (quick tier) against a scratch worktree of /repo HEAD with the
+# seeded change applied (VERIF_REPO), so /repo itself is not touched. The registered
+# checks always run against /repo; this path exists to evaluate seeded changes.
 set -u
 d=$(realpath "$1"); shift
-git -C /repo diff --quiet || { echo "/repo has uncommitted changes"; exit 2; }
-git -C /repo apply "$d/patch.diff" || { echo "patch does not apply"; exit 2; }
-trap 'git -C /repo checkout -- . ' EXIT
+wt=$(mktemp -d /tmp/seedrun.XXXXXX)
+git -C /repo worktree add -q --detach "$wt" HEAD || exit 2
+trap 'git -C /repo worktree remove --force "$wt" >/dev/null 2>&1; rm -rf "$wt"' EXIT
+git -C "$wt" apply "$d/patch.diff" || { echo "patch does not apply"; exit 2; }
 for p in "$@"; do
-  out=$(cd /verif && ./check "$p" 2>&1); rc=$?
-  echo "== $p exit=$rc"
-  echo "$out" | grep -E "VIOLATION|KNOWN-FINDING|violated:|UNREPRODUCED|MISMATCH|^\[" | cut -c1-260 | head -12
+  out=$(cd /verif && VERIF_REPO="$wt" ./check "$p" 2>&1); rc=$?
+  echo "== $(basename $d) $p exit=$rc"
+  echo "$out" | grep -E "VIOLATION|KNOWN-FINDING|violated:|UNREPRODUCED|MISMATCH|^\[" | cut -c1-260 | head -8
 done
